@@ -353,6 +353,21 @@ func init() {
 		c02Chains(r, rng, n, false)
 	})
 
+	// ---------------------------------------------------------------- the model value's primary key as a unit: composite keys
+	register("C02", func(r *Result, rng *rand.Rand, tier string) {
+		n := map[string]int{"quick": 150, "thorough": 6000, "search": 1500}[tier]
+		for i := 0; i < n && !expired(); i++ {
+			c02Composite(r, rng.Int63())
+		}
+	})
+	replayers["C02/pk-composite"] = func(r *Result, input json.RawMessage) {
+		var c c02Case
+		if json.Unmarshal(input, &c) != nil {
+			return
+		}
+		c02Composite(r, c.Seed)
+	}
+
 	replayers["C02/rows"] = func(r *Result, input json.RawMessage) {
 		var c c02Case
 		if json.Unmarshal(input, &c) != nil {
@@ -531,4 +546,172 @@ func reflectSlice(soft bool) interface{} {
 		return &[]WSoft{}
 	}
 	return &[]WPlain{}
+}
+
+// WComp: composite primary key whose first member is called ID and is shared by sibling rows
+type WComp struct {
+	ID  uint   `gorm:"primaryKey;autoIncrement:false"`
+	Loc string `gorm:"primaryKey"`
+	A   *int
+	B   *int
+	S   *string
+}
+
+// c02Composite: "the primary key of the model value" is ONE more AND unit — every key column of it. Rows share key parts,
+// so a condition built from a subset of the key columns selects sibling rows.
+func c02Composite(r *Result, seed int64) {
+	rng := rand.New(rand.NewSource(seed))
+	w := newWorld()
+	base := genRows(rng, 3+rng.Intn(3), false)
+	locs := []string{"en", "zh", "de"}
+	type crow struct {
+		wRow
+		Loc string
+	}
+	var rows []crow
+	for _, b := range base {
+		for _, l := range locs[:2+rng.Intn(2)] {
+			x := b
+			x.A, x.B = nil, nil
+			if rng.Intn(5) > 0 {
+				v := rng.Intn(4)
+				x.A = &v
+			}
+			if rng.Intn(5) > 0 {
+				v := rng.Intn(4)
+				x.B = &v
+			}
+			rows = append(rows, crow{x, l})
+		}
+	}
+	db, _, sqlDB := OpenRec(&gorm.Config{NowFunc: fixedNowFunc})
+	defer sqlDB.Close()
+	if err := db.AutoMigrate(&WComp{}); err != nil {
+		panic(err)
+	}
+	for _, x := range rows {
+		db.Create(&WComp{ID: uint(x.ID), Loc: x.Loc, A: x.A, B: x.B, S: x.S})
+	}
+	cfg := chainGenCfg{exGenCfg: exGenCfg{table: "w_comps"}, noStruct: true, allowEmpty: true}
+	ch := genChainN(rng, w, 1, rng.Intn(3), cfg)
+	target := rows[rng.Intn(len(rows))]
+	key := func(x crow) string { return fmt.Sprintf("%d/%s", x.ID, x.Loc) }
+	// accepted readings (see wantIDs): key as last flat AND unit / as conjunct of the whole chain, × the Not latitude
+	var accept [][]string
+	for _, alt := range []bool{false, true} {
+		for _, pkFlat := range []bool{false, true} {
+			var out []string
+			for _, x := range rows {
+				isKey := x.ID == target.ID && x.Loc == target.Loc
+				c := ch
+				if pkFlat {
+					// the key as one more unit: both columns
+					kv := vF
+					if isKey {
+						kv = vT
+					}
+					v, ok := semCtx{w: w, r: x.wRow, alt: alt}.chainThen(ch, kv)
+					if ok && v == vT {
+						out = append(out, key(x))
+					}
+					continue
+				}
+				v, ok := semCtx{w: w, r: x.wRow, alt: alt}.chain(c)
+				if (!ok || v == vT) && isKey {
+					out = append(out, key(x))
+				}
+			}
+			sort.Strings(out)
+			accept = append(accept, out)
+		}
+	}
+	okSet := func(got []string) bool {
+		sort.Strings(got)
+		for _, a := range accept {
+			if strings.Join(a, ",") == strings.Join(got, ",") {
+				return true
+			}
+		}
+		return false
+	}
+	rowStr := make([]string, len(rows))
+	for i, x := range rows {
+		rowStr[i] = key(x) + x.wRow.String()
+	}
+	model := func() *WComp { return &WComp{ID: uint(target.ID), Loc: target.Loc} }
+	changed := func(tx *gorm.DB, del bool) []string {
+		var after []WComp
+		tx.Session(&gorm.Session{NewDB: true}).Order("id, loc").Find(&after)
+		have := map[string]WComp{}
+		for _, a := range after {
+			have[fmt.Sprintf("%d/%s", a.ID, a.Loc)] = a
+		}
+		out := []string{}
+		for _, x := range rows {
+			a, ok := have[key(x)]
+			if del && !ok || !del && ok && a.B != nil && *a.B == 77 {
+				out = append(out, key(x))
+			}
+		}
+		return out
+	}
+	for _, fin := range []string{"update", "updates-map", "updatecolumn", "delete", "first"} {
+		tx := db.Begin()
+		var got []string
+		var err error
+		switch fin {
+		case "update":
+			err = ch.apply(tx.Model(model())).Update("b", 77).Error
+			got = changed(tx, false)
+		case "updates-map":
+			err = ch.apply(tx.Model(model())).Updates(map[string]interface{}{"b": 77}).Error
+			got = changed(tx, false)
+		case "updatecolumn":
+			err = ch.apply(tx.Model(model())).UpdateColumn("b", 77).Error
+			got = changed(tx, false)
+		case "delete":
+			err = ch.apply(tx).Delete(model()).Error
+			got = changed(tx, true)
+		case "first":
+			m := model()
+			err = ch.apply(tx).First(m).Error
+			if err == gorm.ErrRecordNotFound {
+				err, got = nil, []string{}
+			} else if err == nil {
+				got = []string{fmt.Sprintf("%d/%s", m.ID, m.Loc)}
+			}
+		}
+		tx.Rollback()
+		r.Case("pk-composite", fmt.Sprint(fin, ch.desc(), rowStr), true)
+		r.H("pk-composite.finisher", fin)
+		if err != nil {
+			r.H("pk-composite.error", trunc(err.Error(), 40))
+			continue
+		}
+		if fin == "first" {
+			// First returns one row: it must be one the key reading permits (or none when that set is empty)
+			ok := false
+			for _, a := range accept {
+				if len(got) == 0 && len(a) == 0 || len(got) == 1 && len(a) > 0 && contains(a, got[0]) {
+					ok = true
+				}
+			}
+			if ok {
+				continue
+			}
+		} else if okSet(got) {
+			continue
+		}
+		r.Violate(Violation{Kind: "e2e", Suite: "pk-composite", Input: c02Case{Seed: seed, Rows: rowStr, Chain: ch.desc(), Fin: fin + " model key " + key(target)},
+			Observed: got, Expected: accept[0], Note: "the model value's primary key (id AND loc) is one AND unit of the chain"})
+	}
+}
+
+func contains(a []string, s string) bool {
+	for _, x := range a {
+		if x == s {
+			return true
+		}
+	}
+	return false
 }
